@@ -186,7 +186,9 @@ func TestVerifC03(t *testing.T) {
 		t0 := time.Now()
 		go func() {
 			defer close(done)
-			panicked, msg, st = vh.Guard(func() { tg.run(b, r) })
+			eb := make([]byte, len(b)) // capacity == length: a parser that reslices past the end faults instead of reading slack
+			copy(eb, b)
+			panicked, msg, st = vh.Guard(func() { tg.run(eb, r) })
 		}()
 		select {
 		case <-done:
@@ -319,6 +321,49 @@ func TestVerifC03(t *testing.T) {
 		}
 		runOne("wrap", i, tg, b, r, "")
 		h.Distinct("wrap", tg.name, b)
+	}
+
+	// blobs that END inside or right after a multi-byte natural number of the header: every length class (first byte 00, 80, C0, E0,
+	// F0, F8, FC, FE, FF) for the jump-table count and for the code length, every cut; buffers have no spare capacity (runOne), so a
+	// reader that loads a fixed-width word across the end of the input faults
+	firsts := []byte{0x00, 0x80, 0xC0, 0xE0, 0xF0, 0xF8, 0xFC, 0xFE, 0xFF}
+	nat := func(cls int, r vh.R) []byte {
+		b := append([]byte{firsts[cls]}, r.Bytes(cls)...)
+		if cls == 8 {
+			b = append([]byte{0xFF}, r.Bytes(8)...)
+		}
+		if r.Bool() { // a small value in a long form, or zeros
+			for k := 1; k < len(b); k++ {
+				b[k] = 0
+			}
+			if len(b) > 1 {
+				b[len(b)-1] = byte(r.IntN(64))
+			}
+		}
+		return b
+	}
+	ci := 0
+	for cj := 0; cj < 9; cj++ {
+		for cc := 0; cc < 9; cc++ {
+			ci++
+			if !h.Mine("natcut", ci) {
+				continue
+			}
+			r := h.Rng("natcut", ci)
+			full := append(append(append([]byte{}, nat(cj, r)...), byte(r.IntN(9))), nat(cc, r)...)
+			full = append(full, r.Bytes(r.IntN(4))...)
+			for cut := 1; cut <= len(full); cut++ {
+				for _, tg := range targets {
+					b := full[:cut]
+					if tg.std {
+						b = refpvm.StdBlob(nil, nil, 0, 0, b)
+					}
+					runOne("natcut", ci, tg, b, r, "")
+				}
+			}
+			h.Inc("headers_cut_inside_a_natural_number")
+			h.Distinct("natcut", cj, cc)
+		}
 	}
 
 	// every truncation of a few valid blobs, through every target
